@@ -481,7 +481,7 @@ def build_direct(T, con, size_of=None, line_y=False, page_size=None):
     return pages, nums
 
 
-TEXT_SINK_CODEC = {0: None, 1: "utf-8", 3: "latin-1", 7: "ascii"}      # tNONE, tUTF8, tLATIN1, tASCII of ConvOps.tla
+TEXT_SINK_CODEC = {0: None, 1: "utf-8", 3: "latin-1", 7: "ascii", 9: ""}      # tNONE, tUTF8, tLATIN1, tASCII, tEMPTY of ConvOps.tla
 
 
 def run_converter(pages, conv, sink, codec, strip, imgw, text_codec="utf-8"):
@@ -493,7 +493,7 @@ def run_converter(pages, conv, sink, codec, strip, imgw, text_codec="utf-8"):
     if conv == "text":
         dev = TextConverter(rm, fp, codec=(text_codec if sink == "text" else (cod or "utf-8")), laparams=None)
     else:
-        dev = XMLConverter(rm, fp, codec=cod, laparams=None, imagewriter=StubImageWriter() if imgw else None, stripcontrol=strip)
+        dev = XMLConverter(rm, fp, codec=(text_codec if (sink == "text" and text_codec == "") else cod), laparams=None, imagewriter=StubImageWriter() if imgw else None, stripcontrol=strip)
     for p in pages:
         dev.receive_layout(p)
     dev.close()
